@@ -134,6 +134,6 @@ def start_recipe(r: random.Random, pool="default", xform_rate=0.0):
     if rec["form"] == "stream":
         rec["pos"] = r.choice([0, 0, 3, 10 ** 7])
     if r.random() < xform_rate:
-        rec["xform"] = [{"kind": "rename_slides", "mode": r.choice(["reverse", "rotate", "gaps", "shuffle"]),
+        rec["xform"] = [{"kind": "rename_slides", "mode": r.choice(["reverse", "rotate", "gaps", "shuffle", "lastfits", "firstbig"]),
                          "seed": r.randint(0, 99)}]
     return rec
